@@ -383,6 +383,56 @@ def r5_list_effects(ctx, prog):
         r.violation(f['qname'], 'positive entries are added', 'no insertion into supportedMechanisms in the positive branch', file=f['file'], line=f['line'])
 
 
+def r6_reauthenticate(ctx, prog, rule_id='C07.R6'):
+    """C_Login(CKU_CONTEXT_SPECIFIC) clears the pending re-authentication only after the PIN of the user who IS logged in was verified: Token::reAuthenticate is evaluated over
+    (SO logged in, user logged in, nobody) x (verification succeeds, fails).  CKR_OK needs a successful verification against the PIN blob of the logged-in user type - the blob is
+    read off the SecureDataManager method that is called (which member it hands to the PBE check), not off its name."""
+    r = ctx.rule(rule_id, 'context-specific login succeeds only after the PIN of the logged-in user type was verified', floor=6, engine='E1 finite-domain evaluation + callee summaries')
+    f = prog.fn('Token::reAuthenticate')
+    ctx.analysed(f)
+    # which PIN blob each verification method checks
+    blob = {}
+    for g in prog.methods_of('SecureDataManager'):
+        if g['body'] is None:
+            continue
+        used = {x['field'] if x.get('k') == 'Member' else x.get('name') for c in calls(g['body']) for a in c.get('args', []) if a is not None for x in walk(a)
+                if (x.get('k') == 'Member' and x.get('field') in ('soEncryptedKey', 'userEncryptedKey')) or (x.get('k') == 'Var' and x.get('name') in ('soEncryptedKey', 'userEncryptedKey'))}
+        if len(used) == 1 and short(g['qname']).lower().startswith('reauth'):
+            blob[short(g['qname'])] = next(iter(used))
+    if len(blob) < 2:
+        r.undecided(f['qname'], 'verification methods', 'the methods that verify a PIN against soEncryptedKey / userEncryptedKey were not found', file=f['file'], line=f['line'])
+        return
+    for who, so, user in (('SO logged in', 1, 0), ('user logged in', 0, 1), ('nobody logged in', 0, 0)):
+        for res in (0, 1):
+            cenv = {re.compile(r'isSOLoggedIn(@\d+)?\(\w+\)'): so, re.compile(r'isUserLoggedIn(@\d+)?\(\w+\)'): user, 'sdm': 1, re.compile(r'getTokenFlags(@\d+)?\(.*\)'): 1}
+            for m in blob:
+                cenv[re.compile(r'%s(@\d+)?\(.*\)' % m)] = res
+            o = Outcomes(f, prog, cenv=cenv, record_calls=set(blob))
+            o.CAP = 64
+            o.go()
+            r.paths += len(o.outcomes)
+            site = '%s, verification %s' % (who, 'succeeds' if res else 'fails')
+            bad = None
+            want = {'SO logged in': 'soEncryptedKey', 'user logged in': 'userEncryptedKey'}.get(who)
+            for oc in o.outcomes:
+                made = [e[1] for e in oc['events'] if e[0] == 'call' and e[1] in blob]
+                ok = oc.get('ret') == 'CKR_OK'
+                if ok and (not made or not res):
+                    bad = (oc, 'answers CKR_OK although %s' % ('no PIN verification was made' if not made else 'the verification failed'))
+                elif made and want and any(blob[m] != want for m in made):
+                    bad = (oc, 'verifies the PIN against %s while the %s' % ('/'.join(sorted({blob[m] for m in made})), who.replace(' logged in', ' is logged in')))
+                elif made and want is None:
+                    bad = (oc, 'verifies a PIN although nobody is logged in')
+                if bad:
+                    break
+            if not o.outcomes:
+                r.undecided(f['qname'], site, 'no path', file=f['file'], line=f['line'])
+            elif bad:
+                r.violation(f['qname'], site, 'Token::reAuthenticate %s: a pending CKA_ALWAYS_AUTHENTICATE operation is released without the right PIN' % bad[1], file=f['file'], line=bad[0]['line'], path=bad[0]['path'])
+            else:
+                r.ok(f['qname'], site, '%d paths' % len(o.outcomes), file=f['file'], line=f['line'])
+
+
 def run(ctx):
     prog = ctx.prog('ossl-file')
     mx = matrix(ctx, prog)
@@ -391,6 +441,7 @@ def run(ctx):
     r3_tables(ctx, prog, mx)
     r4_reauth(ctx, prog)
     r5_list_effects(ctx, prog)
+    r6_reauthenticate(ctx, prog)
 
 
 MUTANTS = [
